@@ -121,7 +121,7 @@ func c06(r *Report) {
 		Alt: []Check{CallCheck(Fn(dag, "dag", "isPresent"), -1, IsTrue)}})
 	// `present` true => return before Write
 	r.Gate(Gate{ID: "C06.add.present-returns", Fn: add, Effect: CallEffect(kvWrite),
-		Check: Check{Desc: "present == false", Pass: IsFalse, Values: capturedLoads("present")}})
+		Check: Check{Desc: "present == false", Pass: IsFalse, Values: CellLoadsStoredFrom(Fn(dag, "dag", "isPresent"), 0)}})
 	writeCl := one(anonCalling(add, Fn(dag, "dag", "add")))
 	gadd := Fn(dag, "dag", "add")
 	r.Gate(Gate{ID: "C06.add.recheck-present", Fn: writeCl, Effect: AnyEffect(CallEffect(gadd), CallEffect(Fn(dag, "PayloadStore", "writePayload")), CallEffect(Fn(dag, "state", "saveEvent")), CallEffect(Fn(dag, "state", "updateState"))),
